@@ -49,6 +49,7 @@ type TCPEnd struct {
 	Reads    int
 	Faults   []WriteFault
 	WriteErr int // number of failed writes on this end
+	FirstFail int // index of the first failed write (-1: none)
 
 	OnData  func(b []byte) // actor end: bytes arrived
 	OnClose func()         // actor end: peer closed or reset
@@ -115,8 +116,8 @@ func (n *Net) connect(src *net.TCPAddr, dst *net.TCPAddr, dialerProxy bool) (*TC
 		return nil, &net.OpError{Op: "dial", Net: "tcp", Addr: dst, Err: syscall.ECONNREFUSED}
 	}
 	id := len(n.Conns)/2 + 1
-	a := &TCPEnd{ID: id, n: n, Local: src, Remote: dst, Proxy: dialerProxy, Dialer: true}
-	b := &TCPEnd{ID: id, n: n, Local: &net.TCPAddr{IP: dst.IP, Port: dst.Port}, Remote: src, Proxy: l.Proxy}
+	a := &TCPEnd{ID: id, n: n, Local: src, Remote: dst, Proxy: dialerProxy, Dialer: true, FirstFail: -1}
+	b := &TCPEnd{ID: id, n: n, Local: &net.TCPAddr{IP: dst.IP, Port: dst.Port}, Remote: src, Proxy: l.Proxy, FirstFail: -1}
 	a.Peer, b.Peer = b, a
 	n.Conns = append(n.Conns, a, b)
 	n.event("tcp-connect", src.String(), dst.String(), id, "")
@@ -541,6 +542,9 @@ func (o *writeOp) Do() {
 		o.err = &net.OpError{Op: "write", Net: "tcp", Err: err}
 		em.Err = what
 		e.WriteErr++
+		if e.FirstFail < 0 {
+			e.FirstFail = idx
+		}
 		n.event("tcp-write-error", e.Local.String(), e.Remote.String(), e.ID, what)
 	}
 	if e.closed {
